@@ -117,7 +117,9 @@ func (b *c03iBus) Publish(topic string, ev events.Event) {
 			case dhcp6.MsgTypeAdvertise:
 				h.emit(who, "ADV")
 			case dhcp6.MsgTypeReply:
-				if m, err := dhcp6.ParseMessage(raw[48:]); err == nil && m.Options.IANA == nil {
+				if m, err := dhcp6.ParseMessage(raw[48:]); err == nil && m.Options.IANA == nil && m.Options.IAPD != nil && m.Options.IAPD.Prefix != nil {
+					h.emit(who, "REPLYPD") // no address (IA_NA pool exhausted) but a delegated prefix: service
+				} else if err == nil && m.Options.IANA == nil {
 					h.emit(who, "RREPLY") // reply to a Release: carries no address
 				} else {
 					h.emit(who, "REPLY")
